@@ -245,6 +245,7 @@ def add(ctx):
     mut.replace_expr('keys', 'HDKey.child_private', 'self.depth + 1', 'self.depth', 'child_private: depth not incremented'),
     mut.replace_expr('keys', 'HDKey.child_public', 'self.fingerprint', 'self.parent_fingerprint', 'child_public: parent fingerprint copied from parent'),
     mut.replace_expr('keys', 'HDKey.fingerprint', 'self.hash160[:4]', 'self.hash160[-4:]', 'fingerprint: last 4 bytes'),
+    mut.replace_stmt('keys', 'HDKey.__init__', 'self.chain = chain', 'self.chain = to_bytes(chain)', 'chain code passed through the hex-sniffing normaliser'),
 ])
 def meta(ctx):
     """child_private / child_public build the child with depth+1, parent_fingerprint = this key's fingerprint, chain = I_R;
@@ -269,6 +270,21 @@ def meta(ctx):
         ctx.require(_kw(rv, 'chain') == ir, q, 'child chain code is %s, expected I_R' % show(_kw(rv, 'chain'))[:200], fn)
         if name == 'child_public':
             ctx.require(_kw(rv, 'child_index') == INDEX, q, 'child number is %s' % show(_kw(rv, 'child_index')), fn)
+    # the constructor stores what derivation hands it: chain code, depth, parent fingerprint and child number unchanged (no normaliser in
+    # between - to_bytes() re-reads bytes that spell hexadecimal text)
+    q = 'keys:HDKey.__init__'
+    fn = repo.func(q)
+    stores = {}
+    for n in ast.walk(fn):
+        if isinstance(n, ast.Assign) and len(n.targets) == 1 and norm(n.targets[0]) in ('self.chain', 'self.depth', 'self.parent_fingerprint', 'self.child_index'):
+            stores.setdefault(norm(n.targets[0]), []).append(n)
+    for attr in ('self.chain', 'self.depth', 'self.parent_fingerprint', 'self.child_index'):
+        if len(stores.get(attr, [])) != 1:
+            ctx.unsure('%s: %s is assigned in %d places' % (q, attr, len(stores.get(attr, []))))
+            continue
+        ctx.match(q, 'stored %s' % attr[5:], stores[attr][0].value, attr[5:], fn, stores[attr][0],
+                  'a chain code whose 32 bytes all are ASCII hex digits is replaced by the 16 bytes it spells: master and every child key differ from BIP32' if attr == 'self.chain' else 'the serialised extended key carries other metadata than the derivation produced')
+    ctx.saw('HDKey.__init__ stores chain / depth / parent_fingerprint / child_index as given')
     q = 'keys:HDKey.fingerprint'
     fn = repo.func(q)
     it = Interp(repo, 'keys', self_cls='keys:HDKey')
